@@ -476,7 +476,7 @@ onefetch_subseq(ESL_GETOPTS *go, FILE *ofp, ESL_SQFILE *sqfp, char *newname, cha
   else
     { start = given_start; end = given_end;   do_revcomp = FALSE; }
 
-  if (esl_sqio_FetchSubseq(sqfp, key, start, end, sq) != eslOK) esl_fatal(esl_sqfile_GetErrorBuf(sqfp));
+  if (esl_sqio_FetchSubseq(sqfp, key, start, end, sq) != eslOK) esl_fatal("%s", esl_sqfile_GetErrorBuf(sqfp));
 
   if      (newname != NULL) esl_sq_SetName(sq, newname);
   else                      esl_sq_FormatName(sq, "%s/%" PRId64 "-%" PRId64, key, given_start, (given_end == 0) ? sq->L : given_end);
